@@ -78,10 +78,11 @@ pub trait WithMsg {
 /// through `from_bytes` and passes it to the visitor.
 pub fn with_msg<V: WithMsg>(carrier: u8, s: u8, d1: u8, d2: u8, v: V) -> V::Out {
     let bytes = (s, u7(d1), u7(d2));
+    use crate::engine::api;
     match carrier & 3 {
-        0 => v.call(&RawShortMessage::from_bytes(bytes).expect("valid status")),
-        1 => v.call(&StructuredShortMessage::from_bytes(bytes).expect("valid status")),
-        2 => v.call(&Foreign::from_bytes(bytes).expect("valid status")),
-        _ => v.call(&ForeignTuple::from_bytes(bytes).expect("valid status")),
+        0 => v.call(&api(|| RawShortMessage::from_bytes(bytes)).expect("valid status")),
+        1 => v.call(&api(|| StructuredShortMessage::from_bytes(bytes)).expect("valid status")),
+        2 => v.call(&api(|| Foreign::from_bytes(bytes)).expect("valid status")),
+        _ => v.call(&api(|| ForeignTuple::from_bytes(bytes)).expect("valid status")),
     }
 }
